@@ -113,6 +113,41 @@ def r3_own_addresses_not_dialled(cx):
         if src is not None and src["l"] == 2:
             outer = li
     cx.check("outer-loop", outer is not None, site_of(ctp), "the sweep over the received peer list was identified")
+    # every listed entry reaches the own-id comparison (or is dialled) unless one of its addresses already is a
+    # connected peer: no other early `continue` may hide an entry from the adoption branch
+    if outer is not None and eqs:
+        peer_known = set()
+        for (b, ci2, ct2) in calls_on_field(prog, ("HashMap::contains_key", "HashMap<K, V, S>::contains_key", "collections::HashMap::contains_key"), "GenericCloud", "peers", bodies=[ctp]):
+            peer_known |= success_edges(ctp, ci2).ok_edges
+        # `entry.addrs.iter().any(|a| self.peers.contains_key(a))`: true iff some address is a connected peer
+        for ai, at in ctp.calls():
+            if not callee_is(at, "iter::Iterator::any") or len(at["args"]) < 2:
+                continue
+            rcl = op_root(ctp, at["args"][1])
+            dcl = defuse(ctp).single_def(rcl["l"]) if rcl is not None else None
+            if not (dcl and dcl[0] == "stmt" and dcl[3]["rv"].get("agg") == "closure"):
+                continue
+            cb = prog.by_did.get(dcl[3]["rv"]["closure_did"])
+            ups = [deep_root(ctp, o) for o in dcl[3]["rv"]["ops"] if op_place(o) is not None]
+            if cb is None or not any(u is not None and place_is_field(u, "GenericCloud", "peers") for u in ups):
+                continue
+            cks = [(ci3, ct3) for ci3, ct3 in cb.calls() if callee_is(ct3, "HashMap::contains_key", "HashMap<K, V, S>::contains_key", "collections::HashMap::contains_key")]
+            others = [ci3 for ci3, ct3 in cb.calls() if (ci3, ct3) not in cks]
+            if len(cks) == 1 and not others and not cks[0][1]["dest"].get("p") and cks[0][1]["dest"]["l"] == 0:
+                peer_known |= success_edges(ctp, ai).ok_edges
+        starts = []
+        inner_blocks = set()
+        for li2 in loops:
+            if li2.header != outer.header and li2.header in outer.blocks:
+                inner_blocks |= set(li2.blocks)
+        own_next = [nb for nb in outer.next_calls if nb not in inner_blocks]
+        for nb in own_next:
+            for e in success_edges(ctp, nb).ok_edges:
+                starts.append(ctp.cfg.succ[e[1]][e[2]])
+        reach = ctp.cfg.reachable_from(starts, avoid_blocks=list(eqs) + list(connects), avoid_edges=peer_known)
+        hidden = outer.header in reach or any(nb in reach for nb in own_next)
+        cx.check("entry-reaches-own-id-test", bool(starts) and not hidden, site_of(ctp, eqs[0]),
+                 "a received entry is skipped before the own-node-id test only when one of its addresses is a connected peer")
     for ci in eqs:
         oc = success_edges(ctp, ci)
         pushes = [(pi, pt) for pi, pt in ctp.calls() if callee_is(pt, "SmallVec::push") and
